@@ -28,6 +28,7 @@ RULE = (
     "diagnostic series; a crash before the first checkpoint resumes from scratch through resume_from_file and again equals R0. "
     "Non-trivial = crash strictly after >=1 checkpoint was written and before the run finished; counted per (configuration, k)."
 )
+RULE += " " + ('Checkpoint files are named .h5 / .hdf5 / .HDF5; in half of the configurations the option dictionaries (sampler_kwargs incl. n_final_steps, preconditioning_kwargs) are created once and the same objects are passed to the interrupted and to every resumed run.')
 ASSUMPTIONS = [
     "random sources are numpy Generators (their state is what the checkpoint payload stores); kernel packages are harness doubles",
     "emcee-based SMC is excluded: emcee is not given a generator by aspire, so its runs are not reproducible by construction",
